@@ -582,6 +582,17 @@ def gen_c08(ctx):
     return specs
 
 
+def gen_c13_empty_data(ctx):
+    """input data of zero bytes is input all the same: the first command sees end-of-file at once, not the caller's stdin"""
+    specs = []
+    rng = common.SplitMix64(ctx.seed + 1313)
+    for n in (1, 2, 3):
+        for term in ("capture", "communicate"):
+            for shape in (["L"] if n == 1 else ["L", "I", "J"]):
+                specs.append(spec(n, filters(n, rng, errl=0), i="D", o="P" if n == 1 else "I", term=term, data=0, read="all", shape=shape))
+    return specs
+
+
 def gen_c13_prompt(ctx):
     """an early exit downstream ends the commands upstream (they are connected by pipes and by nothing else, and they start with
     the default SIGPIPE disposition): `join` returns when the last command has exited, not seconds later"""
@@ -594,7 +605,7 @@ def gen_c13_prompt(ctx):
     return specs
 
 
-GEN = {"C12": gen_c12, "C13": lambda ctx: gen_c13(ctx) + gen_c13_prompt(ctx), "C14": gen_c14, "C08": gen_c08}
+GEN = {"C12": gen_c12, "C13": lambda ctx: gen_c13(ctx) + gen_c13_prompt(ctx) + gen_c13_empty_data(ctx), "C14": gen_c14, "C08": gen_c08}
 
 
 def extra_c08(ctx):
@@ -637,6 +648,12 @@ def gen_c01(ctx):
                 # a first command that ignores a piped stdin gives EPIPE (C02's subject): feed a copier
                 first = "G3:0" if i == "I" else "C"
                 specs.append(spec(n, [first] + ["C"] * (n - 2) + ["K%d" % ms], i=i, o="P", term="communicate", data=20, read="all"))
+    # a consumer that exits early while the producer has far more to say than a pipe holds: the producer must be ended by the
+    # broken pipe (it holds no reader of its own output), and the exchange with the parent must end
+    for n in (2, 3):
+        for term in ("capture", "communicate"):
+            specs.append(spec(n, ["Y"] + ["C"] * (n - 2) + ["X0"], i="I", o="P", term=term, read="all") + " prompt=2500")
+    specs.append(spec(2, ["G200000:0", "X0"], i="I", o="P", term="capture", read="all") + " prompt=2500")
     return specs
 
 
@@ -654,6 +671,17 @@ def extra_c01(ctx):
             if len(ctx.violations) < 3:
                 ctx.violation({"engine": "pipe", "spec": c["spec"], "what": msg, "events": " ".join(c["abs"][0]),
                                "log": c["log"][:120], "replay_cmd": "./check C01 (real-kernel part)"})
+        if c["kv"].get("prompt"):
+            if c.get("hang"):
+                viol("the exchange never ended although the last command had exited at once: parent and commands are stuck ("
+                     + hang_reason(c) + ")")
+            elif c["res"][0] != "ok":
+                viol("the exchange failed: " + " ".join(c["res"]))
+            elif int(c["stat"]["ms"]) > int(c["kv"]["prompt"]):
+                viol("the last command exited at once, but the exchange took %s ms" % c["stat"]["ms"])
+            else:
+                n_ok += 1
+            continue
         sleep_ms = int(c["kv"]["stages"].split(",")[-1][1:])
         if c.get("hang"):
             viol("the call never returned although the command had closed its stdout and stderr: " + hang_reason(c))
